@@ -122,6 +122,7 @@ enum Counter : uint32_t {
     C_YIELD_CLOCK,
     C_FS_WRITE_REFUSED,
     C_YIELD_IO,
+    C_YIELD_INSTR,
     C_USER0 = 32, // harness specific probes from here
 };
 void count(uint32_t c, uint32_t n = 1);
@@ -171,6 +172,7 @@ struct SchedConfig
     int time_adv_pct = 20; // per decision chance (%) of a bounded time advance while busy
     int clock_yield_pct = 0; // chance (%) that a clock read by a managed thread is a decision point
     int io_yield_pct = 0; // chance (%) that a read/write of a tracked log file is followed by a decision point
+    int instr_yield_pp10k = 0; // chance (per 10000) that entering a function of the (instrumented) library is a decision point
     // stall fault: thread `stall_tid` is not chosen in decisions [stall_from, stall_from+stall_len)
     int stall_tid = -1;
     uint32_t stall_from = 0, stall_len = 0;
